@@ -60,6 +60,14 @@ pub(crate) enum OpCode {
 
 const JUMP_PLACEHOLDER: u16 = 1337;
 
+/// Converts a position, index or count into the operand of an instruction,
+/// which fails for programs that are too large for the bytecode format
+fn operand<T: TryFrom<usize>>(value: usize) -> Result<T, Error> {
+    value.try_into().map_err(|_| {
+        Error::SyntaxError("programma is te groot om te compileren".to_string())
+    })
+}
+
 impl From<u8> for OpCode {
     #[inline(always)]
     fn from(value: u8) -> Self {
@@ -315,7 +323,7 @@ impl Compiler {
                     OpCode::SetLocal
                 };
                 self.emit_opcode(op);
-                self.emit_u16(symbol.index);
+                self.emit_u16(operand(symbol.index)?);
             }
             Stmt::Return(expr) => {
                 // There is no frame to return from outside of a function
@@ -352,7 +360,7 @@ impl Compiler {
                     )),
                 }?;
                 self.emit_opcode(OpCode::Jump);
-                self.emit_u16(pos.try_into().unwrap());
+                self.emit_u16(operand(pos)?);
             }
         }
 
@@ -387,7 +395,7 @@ impl Compiler {
         const_value: isize,
         operator: &Operator,
     ) -> Result<(), Error> {
-        let idx_constant = self.add_constant(Object::int(const_value));
+        let idx_constant = self.add_constant(Object::int(const_value))?;
         let symbol = self.symbols.resolve(varname);
         match symbol {
             Some(symbol) => {
@@ -410,7 +418,7 @@ impl Compiler {
                 };
 
                 self.emit_opcode(opcode);
-                self.emit_u16(symbol.index);
+                self.emit_u16(operand(symbol.index)?);
                 self.emit_u16(idx_constant);
             }
             None => {
@@ -431,18 +439,18 @@ impl Compiler {
             }
             Expr::Float { value } => {
                 let obj = Object::float(*value, &mut self.gc);
-                let idx = self.add_constant(obj);
+                let idx = self.add_constant(obj)?;
                 self.emit_opcode(OpCode::Const);
                 self.emit_u16(idx);
             }
             Expr::Int { value } => {
-                let idx = self.add_constant(Object::int(*value));
+                let idx = self.add_constant(Object::int(*value))?;
                 self.emit_opcode(OpCode::Const);
                 self.emit_u16(idx);
             }
             Expr::String { value } => {
                 let obj = Object::string(value.as_str(), &mut self.gc);
-                let idx = self.add_constant(obj);
+                let idx = self.add_constant(obj)?;
                 self.emit_opcode(OpCode::Const);
                 self.emit_u16(idx);
             }
@@ -456,7 +464,7 @@ impl Compiler {
                             OpCode::GetLocal
                         };
                         self.emit_opcode(opcode);
-                        self.emit_u16(symbol.index);
+                        self.emit_u16(operand(symbol.index)?);
                     }
                     None => {
                         return Err(Error::ReferenceError(format!(
@@ -510,16 +518,16 @@ impl Compiler {
                         match symbol.scope {
                             Scope::Global => {
                                 self.emit_opcode(OpCode::SetGlobal);
-                                self.emit_u16(symbol.index);
+                                self.emit_u16(operand(symbol.index)?);
                                 self.emit_opcode(OpCode::GetGlobal);
-                                self.emit_u16(symbol.index);
+                                self.emit_u16(operand(symbol.index)?);
                             }
 
                             Scope::Local => {
                                 self.emit_opcode(OpCode::SetLocal);
-                                self.emit_u16(symbol.index);
+                                self.emit_u16(operand(symbol.index)?);
                                 self.emit_opcode(OpCode::GetLocal);
-                                self.emit_u16(symbol.index);
+                                self.emit_u16(operand(symbol.index)?);
                             }
                         }
                     }
@@ -584,7 +592,7 @@ impl Compiler {
 
                 self.change_jump_operand_at(
                     pos_jump_if_false,
-                    self.instructions.len().try_into().unwrap(),
+                    operand(self.instructions.len())?,
                 );
 
                 if let Some(alternative) = alternative {
@@ -594,7 +602,7 @@ impl Compiler {
                 }
 
                 // Change operand of last JumpIfFalse opcode to where we're currently at
-                self.change_jump_operand_at(pos_jump, self.instructions.len().try_into().unwrap());
+                self.change_jump_operand_at(pos_jump, operand(self.instructions.len())?);
             }
             Expr::While { condition, body } => {
                 // TODO: Can we get rid of this now that empty block statement emit a NULL?
@@ -612,18 +620,18 @@ impl Compiler {
 
                 // emit jump instruction to loop condition
                 self.emit_opcode(OpCode::Jump);
-                self.emit_u16(pos_before_condition.try_into().unwrap());
+                self.emit_u16(operand(pos_before_condition)?);
 
                 // Update jump statement for when initial condition evaluated to false (should skip over entire loop)
                 self.change_jump_operand_at(
                     pos_jump_if_false,
-                    self.instructions.len().try_into().unwrap(),
+                    operand(self.instructions.len())?,
                 );
 
                 // Update jump statements for every break statement inside this loop
                 let ctx = self.loop_contexts.pop().unwrap();
                 for ip in ctx.break_instructions {
-                    self.change_jump_operand_at(ip, self.instructions.len().try_into().unwrap());
+                    self.change_jump_operand_at(ip, operand(self.instructions.len())?);
                 }
             }
             Expr::Function {
@@ -663,17 +671,17 @@ impl Compiler {
                     self.emit_opcode(OpCode::Return);
                 }
 
-                self.change_jump_operand_at(pos_jump, self.instructions.len().try_into().unwrap());
+                self.change_jump_operand_at(pos_jump, operand(self.instructions.len())?);
 
                 // Switch back to previous scope again
                 let num_locals = self.symbols.leave_context();
 
                 // Create function object and store as constant
                 let obj = Object::function(
-                    pos_start_function.try_into().unwrap(),
-                    num_locals.try_into().unwrap(),
+                    operand(pos_start_function)?,
+                    operand(num_locals)?,
                 );
-                let idx = self.add_constant(obj);
+                let idx = self.add_constant(obj)?;
                 self.emit_opcode(OpCode::Const);
                 self.emit_u16(idx);
 
@@ -685,7 +693,7 @@ impl Compiler {
                         OpCode::SetLocal
                     };
                     self.emit_opcode(opcode);
-                    self.emit_u16(symbol.index);
+                    self.emit_u16(operand(symbol.index)?);
 
                     self.emit_opcode(OpCode::Const);
                     self.emit_u16(idx);
@@ -700,13 +708,13 @@ impl Compiler {
                     if let Some(builtin) = builtins::resolve(name) {
                         self.emit_opcode(OpCode::CallBuiltin);
                         self.emit_u8(builtin as u8);
-                        self.emit_u8(arguments.len().try_into().unwrap());
+                        self.emit_u8(operand(arguments.len())?);
                         break 'compile_call;
                     }
                 }
                 self.compile_expression(left)?;
                 self.emit_opcode(OpCode::Call);
-                self.emit_u8(arguments.len().try_into().unwrap());
+                self.emit_u8(operand(arguments.len())?);
             }
 
             Expr::Array { values } => {
@@ -714,7 +722,7 @@ impl Compiler {
                     self.compile_expression(v)?;
                 }
                 self.emit_opcode(OpCode::Array);
-                self.emit_u16(values.len().try_into().unwrap());
+                self.emit_u16(operand(values.len())?);
             }
 
             Expr::Index { left, index } => {
@@ -727,19 +735,19 @@ impl Compiler {
         Ok(())
     }
 
-    fn add_constant(&mut self, obj: Object) -> u16 {
+    fn add_constant(&mut self, obj: Object) -> Result<u16, Error> {
         // re-use already defined constants
         if let Some(pos) = self
             .constants
             .iter()
             .position(|c| c.tag() == obj.tag() && c == &obj)
         {
-            return pos.try_into().unwrap();
+            return operand(pos);
         }
 
         let idx = self.constants.len();
         self.constants.push(obj);
-        idx.try_into().unwrap()
+        operand(idx)
     }
 }
 
